@@ -18,6 +18,7 @@ class Obs:
         self.sections = {}
         self.reordered = False
         self.pad_notes = []
+        self.pre_blocks = getattr(world, "last_pre_blocks", None)
         self.align = {}
         at = m.aux_data.get("alignment")
         if at is not None:
@@ -278,9 +279,12 @@ def _pad_ok(world, o, obs, r, p, final=False, strict=True):
     covered = any(off <= r and r + p <= off + size for (b, off, size, kind) in o.blocks)
     if not covered:
         return False
-    if strict and not any(off == r and size == p and obs.align.get(b.uuid, 1) <= 1 for (b, off, size, kind) in o.blocks):
+    if strict and not any(
+        off == r and size == p and obs.align.get(b.uuid, 1) <= 1 and (obs.pre_blocks is None or b.uuid not in obs.pre_blocks) for (b, off, size, kind) in o.blocks
+    ):
         # the library covers padding with a fresh block of its own (which
-        # carries no alignment requirement itself)
+        # carries no alignment requirement itself; padding of an earlier
+        # session is part of the listing by now and is not 'fresh')
         return False
     if strict == "own-block":
         strict = False
